@@ -5,9 +5,9 @@ from run import selftest as W
 from run import witnesses2 as W2
 
 PROPERTY = "C01"
-LEAN_MODULES = ["LccModel.Props.C01", "LccModel.Props.C01Graph", "LccModel.Props.C01Run"]
-PROPS_FILES = ["LccModel/Props/C01.lean", "LccModel/Props/C01Graph.lean", "LccModel/Props/C01Run.lean"]
-NAMESPACES = {"LccModel/Props/C01.lean": "LccModel.C01", "LccModel/Props/C01Graph.lean": "LccModel.C01Graph", "LccModel/Props/C01Run.lean": "LccModel.C01Run"}
+LEAN_MODULES = ["LccModel.Props.C01", "LccModel.Props.C01Graph", "LccModel.Props.C01Run", "LccModel.Props.C01Expand"]
+PROPS_FILES = ["LccModel/Props/C01.lean", "LccModel/Props/C01Graph.lean", "LccModel/Props/C01Run.lean", "LccModel/Props/C01Expand.lean"]
+NAMESPACES = {"LccModel/Props/C01.lean": "LccModel.C01", "LccModel/Props/C01Graph.lean": "LccModel.C01Graph", "LccModel/Props/C01Run.lean": "LccModel.C01Run", "LccModel/Props/C01Expand.lean": "LccModel.C01Expand"}
 DRIVER = "drivers/Run.lean"
 TRUSTED_BASE = RUN_TRUSTED + ["scheduler-only stream: harness/props/_sched.py drives the real run_tasks with synthetic tasks (drivers/Sched.lean)"]
 ASSUMPTIONS = RUN_ASSUMPTIONS + ["Valid P (Lemmas/Graph.lean): sibling suite names distinct incl. the top level (the top level is NOT checked by the real loader: observation in DESIGN), test names distinct per suite, dependencies resolved and acyclic"]
@@ -54,5 +54,16 @@ class RunPT(PropRunStream):
     thorough_cases = 4000
 
 
+from props._decl import DeclStream, DECL_TRUSTED, DECL_RULE
+
+
+class Decl(DeclStream):
+    name = "C01.decl"
+
+
+TRUSTED_BASE = TRUSTED_BASE + DECL_TRUSTED
+RULE = RULE + "; " + DECL_RULE
+
+
 def streams(ctx):
-    return [Sched(), Run(), RunPT()]
+    return [Sched(), Run(), RunPT(), Decl()]
